@@ -288,16 +288,19 @@ def c14_3(R):
     B = Bounds(F)
     for s in b.stmts():
         if written_field(b, s) == "SegmentSizes.max_ss":
-            tv = trace(b, s.rv.ops[0])
             shape_ok = False
-            if tv.kind == "call" and call_matches(tv.root[1], ("Ord::max",)):
-                inner = trace(b, tv.root[1].args[0])
-                floor_ = trace(b, tv.root[1].args[1])
-                if inner.kind == "call" and call_matches(inner.root[1], ("Ord::min",)) and floor_.last_field == "SegmentSizes.min_ss":
-                    a0 = trace(b, inner.root[1].args[0])
-                    a1 = trace(b, inner.root[1].args[1])
-                    if a0.last_field == "SegmentSizes.max_ss" and a1.kind == "call" and call_matches(a1.root[1], ("saturating_sub",)) and a1.root[1].args[1].scalar == 1 and ("param", 2) in value_sources(b, a1.root[1].args[0]):  # on_probe_failed(self, size)
-                        shape_ok = True
+            outer = select_minmax(b, s.rv.ops[0])  # the method form or the equivalent conditional
+            if outer is not None and outer[0] == "max":
+                for inner_t, floor_t in ((outer[1], outer[2]), (outer[2], outer[1])):
+                    inner = None
+                    if inner_t.kind == "call" and call_matches(inner_t.root[1], ("Ord::min", "Ord::max")):
+                        inner = ("min" if call_matches(inner_t.root[1], ("Ord::min",)) else "max", trace(b, inner_t.root[1].args[0]), trace(b, inner_t.root[1].args[1]))
+                    elif inner_t.kind == "multi" and not inner_t.fields:
+                        inner = select_minmax(b, Place({"l": inner_t.root[1], "p": []}))
+                    if inner is not None and inner[0] == "min" and floor_t.last_field == "SegmentSizes.min_ss":
+                        for a0, a1 in ((inner[1], inner[2]), (inner[2], inner[1])):
+                            if a0.last_field == "SegmentSizes.max_ss" and a1.kind == "call" and call_matches(a1.root[1], ("saturating_sub",)) and a1.root[1].args[1].scalar == 1 and ("param", 2) in value_sources(b, a1.root[1].args[0]):  # on_probe_failed(self, size)
+                                shape_ok = True
             if shape_ok:
                 R.ok("on_probe_failed-shape", b.name, "max_ss = min(max_ss, size - 1).max(min_ss)")
             else:
@@ -432,11 +435,10 @@ def c14_7(R):
         wmin = [s for s in b.stmts() if written_field(b, s) == "SegmentSizes.min_ss"]
         for s in wmax:
             n += 1
-            t = trace(b, s.rv.ops[0]) if s.rv.ops else None
+            sel = select_minmax(b, s.rv.ops[0]) if s.rv.ops else None
             ok = False
-            if t is not None and t.kind == "call" and call_matches(t.root[1], ("Ord::max",)) and not t.fields:
-                for a in t.root[1].args:
-                    ta = trace(b, a)
+            if sel is not None and sel[0] == "max":
+                for ta in sel[1:]:
                     if ta.last_field == "SegmentSizes.min_ss":
                         reads = [st for st in ta.steps if isinstance(st, Stmt) and st.rv.ops and st.rv.ops[0].place is not None and st.rv.ops[0].place.last_field == "SegmentSizes.min_ss"]
                         stale = any(point_reaches(b, rd, w) and point_reaches(b, w, s) for rd in reads for w in wmin)
